@@ -276,7 +276,7 @@ def _execute(sc, sim, out):
         if rs[0] != 'ok':
             out.violate('writer-failed', 'fit() raised %s' % pipe.exc_name(rs), key='fit/%s@%s' % (pipe.exc_name(rs), pipe.where(rs[1])))
             return
-        sizes = [ev[3] for ev in sim.events[n0:] if ev[0] == 'write' and ev[2] == sim.rel(side)]
+        sizes = [ev[3] for ev in sim.events[n0:] if ev[0] == 'write' and ev[2] == sim.token(side)]
         cum = []
         t = 0
         for s in sizes:
